@@ -65,9 +65,10 @@ def configure(lang, switches, max_depth):
     from src import utils
     from src.generators.config import cfg
     pool = _STATE["pool"]
-    reserved = utils.get_reserved_words(utils.RandomUtils.resource_path, lang)
-    utils.random.INITIAL_WORDS = set(pool) - reserved
-    utils.random.WORDS = set(utils.random.INITIAL_WORDS)
+    # as src/args.py does: the REAL removal (C05: a repaired, case-insensitive removal must be followed)
+    utils.random.INITIAL_WORDS = set(pool)
+    utils.random.WORDS = set(pool)
+    utils.random.remove_reserved_words(lang)
     sw = dict(zip(SWITCH_NAMES, switches))
     cfg.dis.use_site_variance = bool(sw["disable_use_site_variance"])
     cfg.dis.use_site_contravariance = bool(sw["disable_contravariance_use_site"])
